@@ -179,7 +179,7 @@ func getArgInfo(t reflect.Type) (ArgInfo, error) {
 		}
 		var tags []string
 
-		fields, err := getStructFields(t)
+		fields, err := getStructFields(t, map[reflect.Type]bool{})
 		if err != nil {
 			return nil, err
 		}
@@ -272,7 +272,15 @@ func parseTag(tag string) (string, bool, error) {
 // getStructFields returns relevant reflection information about all struct
 // fields included embedded fields. The caller must check that structType is a
 // struct.
-func getStructFields(structType reflect.Type) ([]*structField, error) {
+func getStructFields(structType reflect.Type, visiting map[reflect.Type]bool) ([]*structField, error) {
+	// A struct can embed a pointer to itself (directly or through other
+	// structs). Following such a cycle would never terminate.
+	if visiting[structType] {
+		return nil, fmt.Errorf("struct %s is recursively embedded", structType.Name())
+	}
+	visiting[structType] = true
+	defer delete(visiting, structType)
+
 	var fields []*structField
 	for i := 0; i < structType.NumField(); i++ {
 		field := structType.Field(i)
@@ -298,7 +306,7 @@ func getStructFields(structType reflect.Type) ([]*structField, error) {
 			// Promote the embedded struct fields into the current parent struct
 			// scope, making sure to update the Index list for navigation back
 			// to the original nested location.
-			nestedFields, err := getStructFields(fieldType)
+			nestedFields, err := getStructFields(fieldType, visiting)
 			if err != nil {
 				return nil, err
 			}
